@@ -230,6 +230,9 @@ func rpc(c *harness.Ctx) {
 				if c.Cfg["byzclient"] != "" && !call.MustReject && c.Choose(2, "byzclient?") == 1 {
 					byzantineClient(c, call)
 				}
+				if c.Cfg["faults"] == "hostile" {
+					hostile(c, call)
+				}
 				if c.Cfg["keys"] == "adv" {
 					w.adversarialKeys(call)
 				}
@@ -375,6 +378,9 @@ func checkCall(c *harness.Ctx, w *World, call *Call, world string) {
 	where := fmt.Sprintf("call #%d %s [%s]", call.ID, call.Desc, world)
 	if !call.Done {
 		c.Fail("C02", "call-unfinished", "call-unfinished", "%s never returned", where)
+		return
+	}
+	if checkHostile(c, w, call, where) {
 		return
 	}
 	if call.Panicked != "" {
